@@ -30,11 +30,22 @@ from fractions import Fraction
 
 RULE = ("samples of length 0..200 with |x| <= 1e6 in eight shapes (uniform, small integers, dyadic, constant, tight cluster "
         "far from 0, magnitudes 1e-12..1e6 mixed, log-uniform, one outlier), the undefined cases n = 0 and n = 1 (sample "
-        "kind) for every request, 200 x 1e6; non-trivial = the model's answer contains a number that is not NaN; "
+        "kind) for every request, 200 x 1e6; every length 0..200 (and 201..1025) once per request kind; geometric means of "
+        "samples whose products over chunks of 2..200 values under/overflow; whole samples of magnitude 1e-300..1e300; "
+        "narrow samples at offsets 1e-100..1e100 of relative width 1e-1..1e-16; exact translations by 2^20..2^50; "
+        "zero/sign patterns (all negative, zero maximum, signed zeros, symmetric); NaN/inf/non-positive data at every "
+        "position (correspondence only); non-trivial = the model's answer contains a number that is not NaN; "
         "distinct = distinct request lines")
 
 U = Fraction(1, 2 ** 53)
 FLOOR = Fraction(1, 2 ** 1000)
+# Ranges in which the rounding model above is valid (no overflow of a sum of <= 1025 values / of a sum of squares,
+# no subnormal geometric mean).  The property's own range (|x| <= 1e6) lies far inside; samples beyond these
+# limits are generated too, but only compared with the model.
+MEAN_MAX = 1e300
+STD_MAX = 1e150
+GEOM_MIN = 2.0 ** -1000
+GEOM_MAX = 2.0 ** 1000
 
 
 def fl(bits):
@@ -85,8 +96,8 @@ def finite(xs):
 def check_mean(xs, got, what="mean"):
     if len(xs) == 0:
         return None if isnan(got) else f"{what} of the empty sample is {got!r}, not NaN"
-    if not finite(xs):
-        return None
+    if not finite(xs) or max(abs(x) for x in xs) > MEAN_MAX:
+        return None  # NaN / infinities, or a sum that may overflow: outside the property, correspondence only
     if isnan(got) or math.isinf(got):
         return f"{what} of a non-empty finite sample is {got!r}"
     m = exact_mean(xs)
@@ -104,8 +115,8 @@ def check_std(kind, xs, got, what="std"):
     d = denom(kind, n)
     if d == 0:
         return (None if isnan(got) else f"{what} with denominator 0 (n={n}, kind {kind}) is {got!r}, not NaN"), None, None
-    if not finite(xs):
-        return None, None, None
+    if not finite(xs) or max(abs(x) for x in xs) > STD_MAX:
+        return None, None, None  # squares may overflow: outside the property, correspondence only
     if isnan(got) or math.isinf(got):
         return f"{what} of a finite sample with non-zero denominator is {got!r}", None, None
     if got < 0:
@@ -124,6 +135,8 @@ def check_geom(xs, got):
         return None if isnan(got) else f"geometric mean of the empty sample is {got!r}, not NaN"
     if not finite(xs) or any(x <= 0 for x in xs):
         return None  # outside the property's domain (positive data); correspondence still compares bits
+    if min(xs) < GEOM_MIN or max(xs) > GEOM_MAX:
+        return None  # the result may be subnormal (no relative accuracy) or overflow by an ulp: correspondence only
     if isnan(got) or math.isinf(got) or got <= 0:
         return f"geometric mean of a positive sample is {got!r}"
     L = max(abs(math.log(x)) for x in xs)
